@@ -373,6 +373,7 @@ async fn answer_late(a: &[String]) -> Vec<String> {
 fn term_fail(e: String) -> Vec<String> {
     let mut v: Vec<String> = TERM_FIELDS.iter().map(|f| format!("{f}=-")).collect();
     v.push("held_finish=-".to_string());
+    v.push("held_opening=-".to_string());
     v.push(format!("err={e}"));
     v
 }
@@ -457,6 +458,24 @@ async fn term(a: &[String]) -> Vec<String> {
         match r {
             Ok(Ok(h)) => held = Some(h),
             Ok(Err(e)) | Err(e) => return term_fail(e),
+        }
+    }
+
+    // opening futures obtained while the connection is up and awaited only after its end
+    let mut held_openings = None;
+    if when == "pending" && style != "drop_all" {
+        let c = conn.clone();
+        let r = rt
+            .run(async move {
+                let ou = bounded(c.open_uni()).await;
+                let ob = bounded(c.open_bi()).await;
+                (ou, ob)
+            })
+            .await;
+        if let Ok((Some(Ok(ou)), Some(Ok(ob)))) = r {
+            held_openings = Some((ou, ob));
+        } else {
+            return term_fail("held_opening:open".into());
         }
     }
 
@@ -569,6 +588,29 @@ async fn term(a: &[String]) -> Vec<String> {
 
     let mut v: Vec<String> = vec!["-".to_string(); 9];
     let mut held_finish = "-".to_string();
+    let mut held_opening = "-".to_string();
+    if let Some((ou, ob)) = held_openings.take() {
+        tokio::time::sleep(ms(250)).await;
+        let r = rt
+            .run(async move {
+                let a = match bounded(ou).await {
+                    None => "timeout".to_string(),
+                    Some(Ok(_)) => "ok".to_string(),
+                    Some(Err(e)) => canon::opening_err(&e),
+                };
+                let b = match bounded(ob).await {
+                    None => "timeout".to_string(),
+                    Some(Ok(_)) => "ok".to_string(),
+                    Some(Err(e)) => canon::opening_err(&e),
+                };
+                format!("{a},{b}")
+            })
+            .await;
+        held_opening = match r {
+            Ok(x) => x,
+            Err(t) => t,
+        };
+    }
     if !dropped_all {
         let conn = conn.take().expect("still held");
         if waiters.is_none() {
@@ -661,6 +703,7 @@ async fn term(a: &[String]) -> Vec<String> {
         .map(|(f, x)| format!("{f}={x}"))
         .collect();
     obs.push(format!("held_finish={held_finish}"));
+    obs.push(format!("held_opening={held_opening}"));
     if !errs.is_empty() {
         obs.push(format!("err={}", errs.join(",")));
     }
